@@ -1018,13 +1018,18 @@ func (rs *runState) wave(r *replica, ph *Phase, name string) {
 	simrt.Event("WAVE-END %s claimed=%d bound=%d missing=%d dead=%v", name, claimed, bound, len(missing), r.node.Dead)
 	if claimed > bound {
 		if len(missing) == 0 {
-			harnessFail("claims (%d) exceed enqueue attempts on present files (%d) although nothing is missing", claimed, bound)
+			// More claims than enqueue attempts with every file present: one entry was
+			// processed twice (the puller's in-flight de-duplication did not hold). Not a
+			// violation of the property by itself — the final-path checks below and the
+			// write observer judge what the double transfer did to the file.
+			simrt.Probe("double_claim_all_present")
+		} else {
+			fs := rs.suspect(missing)
+			st := rs.missingClass(fs, nil)
+			rs.out.Violate("C25.counted-present-while-final-path-missing."+st,
+				"in wave %s the puller counted %d entries as present (skipped_local +%d, pulled +%d) but only %d enqueue attempts concern files that are complete at their final path; e.g. %s is %s at its final path (%s, manifest size %d)",
+				name, claimed, s1["skipped_local"]-s0["skipped_local"], s1["pulled"]-s0["pulled"], bound, fs.spec.Path, rs.finalHow(fs), st, fs.spec.Size)
 		}
-		fs := rs.suspect(missing)
-		st := rs.missingClass(fs, nil)
-		rs.out.Violate("C25.counted-present-while-final-path-missing."+st,
-			"in wave %s the puller counted %d entries as present (skipped_local +%d, pulled +%d) but only %d enqueue attempts concern files that are complete at their final path; e.g. %s is %s at its final path (%s, manifest size %d)",
-			name, claimed, s1["skipped_local"]-s0["skipped_local"], s1["pulled"]-s0["pulled"], bound, fs.spec.Path, rs.finalHow(fs), st, fs.spec.Size)
 	}
 	// ---- oracle: the catch-up gate (FullyCaughtUp) is "every manifest file counted present"
 	if r.ranCatchup && r.catchupRet && !r.node.Dead && p.FullyCaughtUp() {
